@@ -219,6 +219,7 @@ def interpret(cluster, meta, raw):
             "gen_line": prim[0]["line_start"],
             "rendered": d.get("rendered", "")[:3000],
             "props": ob.get("props", []) if ob else [],
+            "sufficient": bool(ob.get("sufficient")) if ob else False,
         })
     if compile_errors:
         msg, line, rendered = compile_errors[0]
